@@ -322,6 +322,11 @@ func cafsChunkPlan(r *tr.Rng, n, leaf int) ([]int, bool) {
 		if k > 32*1024 {
 			k = 32 * 1024
 		}
+		if n/k > 3000 {
+			// (the model appends every chunk to its leaf buffer: hundreds of thousands of tiny
+			// chunks into a megabyte leaf cost it hours)
+			k = n/3000 + 1
+		}
 		var out []int
 		for rem := n; rem > 0; rem -= k {
 			if rem < k {
@@ -538,7 +543,9 @@ func cafsSnapshot(st *memstore.Store) string {
 }
 
 func cafsLeaf(r *tr.Rng, thorough bool) int {
-	if thorough && r.Intn(40) == 0 {
+	// (megabyte leaves are rare: the Lean model hashes every leaf again on every verified read,
+	// at well under a megabyte per second)
+	if thorough && r.Intn(400) == 0 {
 		return r.Pick(1<<20, 3<<19)
 	}
 	return r.Pick(64, 64, 64, 65, 100, 100, 128, 128, 1000, 1000, 4096, 4096, 4096, 65536)
